@@ -1,5 +1,5 @@
 """Claim texts live in bin/plans/Cxx.py (CLAIM); this module only carries the shared bits."""
 import plan
-HOOK_COMMITS = ['1096747']
+HOOK_COMMITS = ['1096747', 'da6e0a6']
 NOT_CLAIMED = {}
 CLAIMS = plan.CLAIMS
